@@ -1,0 +1,13 @@
+//go:build verif
+
+// Contracts for govc (see /verif/DESIGN.md). Comment-only file: no executable code.
+
+package base
+
+//@ property C05 C07
+// the voters of a block are the validators designated by its parent: a function of the block
+//@ func (b BlockVersionSpec) GetVoters(ctx) (vl, err)
+//@   iface
+//@   trusted
+//@   pure
+//@   ensures err == nil ==> vl == blk_voters(b)
